@@ -8,7 +8,7 @@ export GOFLAGS=-mod=mod GOPROXY=off
 cd $WT || exit 2
 git checkout -q --detach $(git -C /repo rev-parse HEAD) 2>/dev/null
 git checkout -q -- . ; git clean -fdq -e _mut
-suite() { go test -vet=off -count=1 ./... 2>&1 | grep -E "^(ok|FAIL|---)" | sed -E 's/\t[0-9.]+s$//; s/\(cached\)//' | sort; }
+suite() { go test -vet=off -count=1 ./... 2>&1 | grep -E "^(ok|FAIL|---)" | sed -E 's/\t[0-9.]+s( \[no tests to run\])?$//; s/\(cached\)//' | sort; }
 suite > /tmp/suite_base_$$.txt
 git apply $MD/patch.diff || { echo "PATCH DOES NOT APPLY"; exit 2; }
 suite > /tmp/suite_mut_$$.txt
